@@ -62,6 +62,8 @@ class Prop(BaseProp):
         for s in strings + deep + faults:
             if all(ord(ch) < 128 for ch in s):
                 cases.append({"kind": "Parse", "s": s})
+        for s in ["m/84'/0'/0'/0/0", "M/44h/1h/0h/1/5", "m/0", "m/1/2/3", "m"]:
+            cases.append({"kind": "Parse", "s": s, "touch": True})
         # by_path vs iterated ckd
         for p in (paths[::7] if not T else paths[::3])[:14 if not T else 60]:
             cases.append({"kind": "ByPath", "s": fmt("m", p, rng.choice("'h")), "intended": p})
@@ -88,6 +90,19 @@ class Prop(BaseProp):
         from btc_hd_wallet.wallet_utils import Bip32Path
         k = case["kind"]
         if k == "Parse":
+            if case.get("touch"):
+                # an earlier caller parsed the same text and edited ITS path object (Bip32Path is a mutable value object
+                # with public fields); that must not be visible to anybody else who parses the text
+                for form in (lambda: Bip32Path.parse(case["s"]), lambda: Bip32Path.parse(s=case["s"])):
+                    try:
+                        q = form()
+                        for f_ in ("addr_index", "chain", "account", "coin_type", "purpose"):
+                            if getattr(q, f_, None) is not None:
+                                setattr(q, f_, getattr(q, f_) + 7)
+                                break
+                        q.private = not q.private
+                    except Exception:
+                        pass
             try:
                 p = Bip32Path.parse(case["s"])
                 return {"ob": [bool(p.private), p.to_list(), str(p)], "err": False}
